@@ -1,6 +1,7 @@
 package main
 
 import (
+	"encoding/json"
 	"fmt"
 	"sort"
 	"strings"
@@ -284,5 +285,54 @@ func init() {
 	props["C04"] = &propDef{level: "fault_enumeration", assumptions: append([]string{"a kill is a real SIGKILL of the simulation process: what survives is what write(2) had handed to the kernel (no power-loss model; Zeno never fsyncs)", "kills inside one sqlite commit are not reachable (no seam inside the wazero VFS)"}, e2eAssumptions...), components: e2eComponents, quickRuns: 2, thorRuns: 30,
 		rule:   "per sampled scenario: one profiling run; then one two-process case per (instrumented point in the queue claim / reactor insert / finish / delete / WARC feedback paths, occurrence) with SIGKILL at that point, per WARC write #k with a torn tail, per seeded scheduler step, and per graceful-stop moment; each followed by a fault-free restart on the same job directory run to quiescence; distinct = distinct event-log hash of the first process; non-trivial as for C03",
 		planFn: planC04,
+	}
+}
+
+// ---------------------------------------------------------------- C16 (paired runs: N versus 4N seeds)
+
+func planC16(p *propDef, tier string, seed uint64, n int) []*Case {
+	type pair struct {
+		a, b *scen.Scenario
+		sa   uint64
+		fp   string
+	}
+	pairs := make([]*pair, n)
+	parallel(n, 16, func(i int) {
+		s := mix(seed, uint64(16000+i))
+		N := 3 + i%6
+		mk := func(k int) *scen.Scenario {
+			t := scen.NewTape(s ^ 0xc16)
+			sc := scen.GenCrawl(t, scen.CrawlOpts{Prop: "C16", MinSeeds: k, MaxSeeds: k, Faults: true, BodyVariety: i%2 == 0, Adversarial: true, NoBadSeeds: false, RateLimit: 1 - 2*(i%2)})
+			sc.Extra = map[string]string{"footprint": "1"}
+			sc.Sched.MaxSteps = 400000
+			sc.Sched.MaxSimSec = 12 * 3600
+			return sc
+		}
+		pr := &pair{a: mk(N), b: mk(4 * N), sa: s}
+		res, _ := runCase(&Case{Idx: 920000 + i, Seed: s, Scenario: pr.a, Label: "N"}, false, nil, "a")
+		if res.rec != nil && res.rec.Summary != nil {
+			if f, ok := res.rec.Summary["footprint"]; ok {
+				b, _ := json.Marshal(f)
+				pr.fp = string(b)
+			}
+		}
+		pairs[i] = pr
+	})
+	var cases []*Case
+	for _, pr := range pairs {
+		cases = append(cases, &Case{Idx: len(cases), Seed: pr.sa, Scenario: pr.a, Label: "N-seeds"})
+		b := pr.b
+		if pr.fp != "" {
+			b.Extra["expect_footprint"] = pr.fp
+		}
+		cases = append(cases, &Case{Idx: len(cases), Seed: mix(pr.sa, 4), Scenario: b, Label: "4N-seeds"})
+	}
+	return cases
+}
+
+func init() {
+	props["C16"] = &propDef{level: "exploration", assumptions: append([]string{"the footprint is sampled 31 simulated minutes after the queue drained (beyond the limiter's clean-up period), after two forced GCs; goroutines are compared as a multiset keyed by entry function, descriptors by class (leveldb / sqlite table files are excluded from the equality: their number legitimately depends on data volume)"}, e2eAssumptions...), components: e2eComponents, quickRuns: 12, thorRuns: 300,
+		rule:   "one pair = the same configuration crawled with N and with 4N generated seeds (N = 3-8; large and spooled bodies, failures, redirects, many hosts, limiter on/off): absolute requirements on each run (reactor table empty, no temp file, no descriptor into the temp directory, no socket, limiter table within workers x per-worker concurrency) and equality of the goroutine multiset and descriptor classes between the two; distinct/non-trivial as for C01",
+		planFn: planC16,
 	}
 }
